@@ -533,9 +533,10 @@ def camp_tds(ctx):
         lines = list(ss0.Line.idx.v)
         cut = [k for k, (a, b) in enumerate(zip(ss0.Line.bus1.v, ss0.Line.bus2.v)) if {a, b} == {9, 10}]
         buses = list(ss0.Bus.idx.v)
-        ev = [dict(kind='toggle_line', t=0.1, sel=k, u=1) for k in cut]
-        ev.append(dict(kind='fault', t=0.3, dur=0.5 if ctx.shard == 0 else 0.7, sel=buses.index(5), u=1, xf=1e-4))
-        c = dict(base='kundur/kundur_full.xlsx', tf=2.5, stress='split_then_fault', events=ev, bad=None,
+        ts, t_f, tf_, xf_ = (1.0, 2.0, 4.0, 1e-4) if ctx.shard == 0 else (0.1, 0.3, 2.5, 1e-2)
+        ev = [dict(kind='toggle_line', t=ts, sel=k, u=1) for k in cut]
+        ev.append(dict(kind='fault', t=t_f, dur=0.5, sel=buses.index(5), u=1, xf=xf_))
+        c = dict(base='kundur/kundur_full.xlsx', tf=tf_, stress='split_then_fault', events=ev, bad=None,
                  cfg=dict(method='trapezoid', fixt=1, shrinkt=1, tstep=1 / 30, max_iter=15, tol=1e-4, criteria=1, sparselib='klu', again=False))
         ctx.current_case = c
         ctx.evaluated()
